@@ -88,9 +88,11 @@ Section Step.
                            | _ => false end) (so_events o) &&
          (stale || existsb (fun x => Z.eqb (srev x) 0) (chain pre) || negb all_ok ||
           match so_res o with OrDone => false | _ => true end ||
-          forallb (fun x => is_archived x || paused_by_parent x ||
-                            existsb (fun e => match e with DUpdate n LPaused true WOk => n =? sname x | _ => false end) (so_events o))
-                  (chain pre)))
+          (forallb (fun x => is_archived x || paused_by_parent x ||
+                             existsb (fun e => match e with DUpdate n LPaused true WOk => n =? sname x | _ => false end) (so_events o))
+                   (chain pre) &&
+           (* after the pass every non-archived revision is Paused *)
+           forallb (fun x => negb (ds_sel x) || is_archived x || is_spec_paused x) (so_sets o))))
     | _ => true
     end.
 
@@ -137,8 +139,16 @@ Fixpoint run_monitors (slices : N -> option (list pobj)) (pre : ostate) (steps :
   | _, _ => []
   end.
 
+Definition last_state (c : dcase) : ostate :=
+  match rev (dc_obs c) with o :: _ => obs_state o | [] => init_state c end.
+
+(** The unmodelled last step (a handover race) is judged like a pass of the outgoing revision's ObjectSet controller. *)
 Definition monitors08 (c : dcase) : list (list bool) :=
-  run_monitors (table_slices (dc_slices c)) (init_state c) (dc_steps c) (dc_obs c).
+  run_monitors (table_slices (dc_slices c)) (init_state c) (dc_steps c) (dc_obs c) ++
+  match dc_race c with
+  | Some (n, o) => [step_monitors (table_slices (dc_slices c)) (last_state c) (SSet false n) o]
+  | None => []
+  end.
 
 Definition column (k : nat) (rows : list (list bool)) : bool := forallb (fun r => nth k r true) rows.
 
@@ -146,8 +156,8 @@ Definition column (k : nat) (rows : list (list bool)) : bool := forallb (fun r =
 Definition judge08 (c : dcase) : list bool :=
   let m := monitors08 c in [agree c; column 0 m; column 1 m; column 2 m; column 3 m; column 4 m; column 5 m].
 
-(** * Soundness of the archive and pruning monitors on the model (any hash function, any fault; fresh List,
-      repaired getter): the monitor accepts what the model does. *)
+(** * Soundness of the archive and pruning monitors on the model (any hash function, any fault; fresh List):
+      the monitor accepts what the model does. *)
 From Coq Require Import Lia.
 From PKO Require Import BaseProofs DeploymentProofs.
 
@@ -191,22 +201,22 @@ Proof.
     injection Hact as <-. now apply inter_keys_nil.
 Qed.
 
-Theorem monitor_sound_archive hash fault slices rev0ok w w' evs r :
-  NoDup (map sname (dw_sets w)) -> dep_pass hash fault slices true rev0ok false w = (w', evs, r) ->
+Theorem monitor_sound_archive hash fault slices w w' evs r :
+  NoDup (map sname (dw_sets w)) -> dep_pass hash fault slices false w = (w', evs, r) ->
   m08_archive slices (state_of w) (SDep false fault) (obs_of w' evs r) = true.
 Proof.
   intros Hnd Hp. unfold m08_archive, archived_names. cbn [so_events obs_of]. apply forallb_forall. intros n Hn.
   apply in_flat_map in Hn. destruct Hn as (e & He & Hn). destruct e as [| n0 life pbp ur | |]; try contradiction.
   destruct life; try contradiction. destruct (effective ur); [|contradiction]. destruct Hn as [<-|[]].
-  apply archivable_archive_ok; [assumption|]. eapply archive_sound_repaired; eauto.
+  apply archivable_archive_ok; [assumption|]. eapply archive_sound_now; eauto.
 Qed.
 
-Theorem monitor_sound_gc hash fault slices sliceaware rev0ok w w' evs r :
-  NoDup (map sname (dw_sets w)) -> dep_pass hash fault slices sliceaware rev0ok false w = (w', evs, r) ->
+Theorem monitor_sound_gc hash fault slices w w' evs r :
+  NoDup (map sname (dw_sets w)) -> dep_pass hash fault slices false w = (w', evs, r) ->
   m08_gc (state_of w) (SDep false fault) (obs_of w' evs r) = true.
 Proof.
   intros Hnd Hp. unfold m08_gc, delete_names. cbn [so_events obs_of st_dep state_of]. apply forallb_forall. intros n Hn.
   apply in_flat_map in Hn. destruct Hn as (e & He & Hn). destruct e as [| | n0 dr |]; try contradiction. destruct Hn as [<-|[]].
-  destruct (gc_sound hash fault slices sliceaware rev0ok false w w' evs r n0 dr Hnd Hp He) as (l0 & newest & EL & Hin & _).
+  destruct (gc_sound hash fault slices true true false w w' evs r n0 dr Hnd Hp He) as (l0 & newest & EL & Hin & _).
   rewrite chain_listed, EL, removelast_app_last. apply existsb_Neqb. exact Hin.
 Qed.
